@@ -159,8 +159,37 @@ def eval_case(case):
                 prev[i] = prev[n + i] = 0
         if ref_prob(t, prev, n)[0] > 0:
             for _ in range(12):
-                nxt, lp = sim.get_next_error(dec, p, prev)
+                # observe the acceptance probability the step actually uses
+                seen_q = []
+                orig_choice = np.random.choice
+
+                def spy_choice(a, *args, **kw):
+                    if kw.get('p') is not None and len(kw['p']) == 2:
+                        seen_q.append(float(kw['p'][1]))
+                    return orig_choice(a, *args, **kw)
+                np.random.choice = spy_choice
+                try:
+                    nxt, lp = sim.get_next_error(dec, p, prev)
+                finally:
+                    np.random.choice = orig_choice
                 nxt = np.asarray(nxt)
+                if len(seen_q) == 1:
+                    # the proposal differs from prev on one qubit; if it was
+                    # accepted we know it, otherwise bound q by the best /
+                    # worst single-qubit move: check exactly when accepted
+                    moved = np.nonzero(nxt != prev)[0]
+                    if len(moved):
+                        _, l_new = ref_prob(t, nxt, n)
+                        _, l_old = ref_prob(t, prev, n)
+                        true_q = 0.0 if math.isinf(l_new) else math.exp(min(0.0, l_new - l_old))
+                        if abs(seen_q[0] - true_q) > 1e-9:
+                            fail('metropolis_acceptance_is_likelihood_ratio',
+                                 f'acceptance probability {seen_q[0]!r} used for a move whose '
+                                 f'true likelihood ratio gives {true_q!r}')
+                            break
+                    elif seen_q[0] > 1 + 1e-12 or seen_q[0] < -1e-12:
+                        fail('metropolis_acceptance_is_probability', f'q = {seen_q[0]!r}')
+                        break
                 diffq = set(np.nonzero(nxt != prev)[0] % n)
                 if len(diffq) > 1:
                     fail('metropolis_single_qubit_move', f'{sorted(diffq)}')
